@@ -53,6 +53,23 @@ impl<K: Clone + PartialEq + Eq + Hash + std::fmt::Debug + std::cmp::PartialOrd, 
         Arc::clone(entry)
     }
 
+    /// Drop one entry which isn't committed yet, for example, loading it fails
+    pub(crate) fn drop_from_wmap(&self, key: &K) {
+        let mut w = self.wmap.lock().unwrap();
+
+        w.remove(key);
+    }
+
+    /// Put evicted entries back, for example, writing them back fails, then
+    /// cache limit is exceeded temporarily until next eviction
+    pub(crate) fn put_back(&self, entries: Vec<(K, AsyncLruCacheEntry<V>)>) {
+        let mut r = self.rmap.write().unwrap();
+
+        for (key, value) in entries {
+            r.entry(key).or_insert(value);
+        }
+    }
+
     /// Flush key/value pairs from wmap to rmap
     pub(crate) fn commit_wmap(&self) -> Option<Vec<(K, AsyncLruCacheEntry<V>)>> {
         let mut w = self.wmap.lock().unwrap();
